@@ -146,6 +146,12 @@ def oracle(case, res, extra):
     depth = max(len(p) for p, _ in walk(cr))
     for k in range(3):
         env = {n: Fraction(rng.randint(0, 6) if rng.random() < 0.2 else rng.randint(1, 9)) for n in cr.input_params}
+        if k >= 1 and len(env) >= 2 and rng.random() < 0.6:
+            # parameters are not sizes: an offset may well be negative while every register stays non-negative (points at which some
+            # size would be negative are outside the domain and skipped below)
+            neg = rng.choice(sorted(env))
+            env[neg] = Fraction(-rng.randint(1, 3))
+            res.stats["points_with_a_negative_parameter_tried"] += 1
         salt = rng.randint(0, 10**6)
         try:
             for path, node in walk(cr):
@@ -155,6 +161,8 @@ def oracle(case, res, extra):
                 # domain of the property: non-negative port sizes
                 if any(E.sympy_ev(p.size, dict(env), salt) < 0 for p in node.ports.values()):
                     raise E.Undefined("negative size")
+            if any(v < 0 for v in env.values()):
+                res.stats["points_with_a_negative_parameter_in_domain"] += 1
             if k == 0:
                 model_correspondence(cr, env, salt, res, case)
             for path, node in walk(cr):
